@@ -3,7 +3,9 @@
 PHONES = {
     'ascii': ['a', 'b', 'c', 'd', 'k', 'o'],
     'multi': ['aa', 'b', 'ch', 'th', 'o', 'ng'],
-    'ipa': ['uː', 'dʒ', 'ʌ', 'oʊ', 'ŋ', 'ã', 'ɛ', 'tʃ'],
+    # (a\u0303, e\u0301: decomposed spellings of letters that have a precomposed code point; \u212b: a canonical
+    #  singleton - a text must come back code point for code point, not in some normal form)
+    'ipa': ['uː', 'a\u0303', 'dʒ', 'e\u0301', 'ʌ', 'oʊ', 'ŋ', 'ã', 'ɛ', 'tʃ', '\u212b'],
     'sepfrag': ['e', 'w', 'o', 'r', 'd', 's', 'y', 'l'],     # letters of ;eword / ;esyll
 }
 
